@@ -67,6 +67,9 @@ def run_case(c: Case):
     try:
         dst = tmp / "src/_gettsim"
         shutil.copytree(SRC, dst, ignore=shutil.ignore_patterns("__pycache__", "*.pyc"))
+        # the rewriter's tested contract is part of what C09 reads
+        (tmp / "src/_gettsim_tests").mkdir()
+        shutil.copy(SRC.parent / "_gettsim_tests/test_vectorization.py", tmp / "src/_gettsim_tests/test_vectorization.py")
         try:
             for e in c.edits:
                 e(tmp)
